@@ -22,10 +22,10 @@ def run(tier, config):
     rep = Report("C09")
     c = K.crate("gamedig-lib", config)
     nf, nr = TS.compare(rep, c, "C09", "C09:table")
-    spec = TS.load_spec("C09")
-    tabled = set(spec["functions"])
-    # D1b: send call sites only in tabled functions (closures count with their parent)
+    # D1b: every Socket::send call site of the crate was evaluated as part of some tabled unit's term (directly or through
+    # inlined helpers): nothing is emitted from code no table describes
     from .. import sites as S
+    seen = TS.send_sites_seen(c)
     n_send = 0
     for f in Q.bodies(c):
         if f["path"].startswith(("gamedig::socket::", "gamedig::capture::")) or "::tests::" in f["path"]:
@@ -36,11 +36,10 @@ def run(tier, config):
                 continue
             n_send += 1
             name = S.fn_display(f)
-            base = name.split("::{closure")[0]
-            ok = name in tabled or base in tabled
+            ok = t.get("at") in seen
             rep.add("%s|send-site" % name, "C09:D1", ok,
-                    "send site is covered by a reviewed request table" if ok else
-                    "Socket::send is called in %s, which has no reviewed request table: the client may emit something the protocol does not define" % name, t.get("at"))
+                    "send site is part of a reviewed request table" if ok else
+                    "Socket::send is called in %s, which no reviewed request table reaches: the client may emit something the protocol does not define" % name, t.get("at"))
     # D2 ports
     eps = P.entry_points(c)
     for e in eps:
@@ -80,7 +79,7 @@ def run(tier, config):
             rep.add("%s|connect-to" % Q.disp(newf), "C09:D2", bool(conn) and all(x in ("arg1", "*arg1.0", "arg1.0", "*arg1") or "arg1" in x for x in conn),
                     "connect target = %s" % conn, newf["span"])
     if config == "baseline":
-        rep.floor("request tables", nf, 28)
+        rep.floor("request tables", nf, 40)
         rep.floor("send call sites", n_send, 14)
         rep.floor("public (address, port) entry points", len(eps), 100)
     rep.decided, rep.not_decided = DECIDED, NOT
